@@ -4,6 +4,7 @@ containers and the extracted model; on a disagreement the abstract map of AbsMap
 the theorem rb_refines_map mentions) decides, and the failing history is delta-minimised."""
 import sys
 
+import decor
 import rbcommon as rb
 
 
@@ -54,6 +55,14 @@ def on_disagreement(c, binary, ln, il, ml, d):
 
 def main(tier):
     c = rb.run("C01", tier, on_disagreement, rb.API)
+    # the tree-backed LINKED and MULTI maps (props/C01_decor.v): the decorator correspondence run of
+    # checks/decor.py over the tree backing (harness package c03: containers ltm / mtm)
+    binary, log = c.build_harness(pkgs=["c01", "c03"])
+    if binary is None:
+        c.report("build", "harness (c01 + c03) does not build against the repository",
+                 {"kind": "build", "log": log[-3000:]}, found_input=False)
+    else:
+        decor.run_decor(c, binary, "tree")
     c.finish(
         level="proof",
         rule="case = one history (container in {tree.RBTree, mapx.TreeMap, set.TreeSet} x comparator in {asc, desc, by-half, "
@@ -65,7 +74,7 @@ def main(tier):
                      "compatibility of = with <); discharged for asc/desc/by-half in props/C01.v",
                      "the hand-written model RBModel.v/TreeMapModel.v describes internal/tree, tree, mapx.TreeMap, set.TreeSet "
                      "(checked by this differential run on API observables and by C02's run on exact shapes)",
-                     "LinkedMap / MultiMap over the tree are covered by a separate check (not this file)"],
+                     "LinkedMap / MultiMap over the tree: theorems in props/C01_decor.v, correspondence by checks/decor.py (called from this check)"],
         trusted_base=rb.TRUSTED + ["no axioms (Print Assumptions: closed under the global context)"])
 
 
